@@ -118,3 +118,8 @@ func vh_C01_L8_later_message_waits_for_missing_earlier_one() {
 // C01.L9: the retransmission of the earliest outstanding chunk is never held back by a small
 // non-zero peer window (= C02.L3 / C06.L2, whose peer window is symbolic).
 func vh_C01_L9_earliest_chunk_always_retransmitted() { vh_C06_L2_abandoned_never_resent() }
+
+// C01.L10: the receiver never forgets or invents a received TSN when a skip clears a range of
+// its bitmap (= C05.S1), and a too-small read never consumes the message (= C18.L3).
+func vh_C01_L10_skip_clears_exactly_its_range() { vh_C05_step_clear_range() }
+func vh_C01_L10_short_read_keeps_the_message()  { vh_C18_L3_short_buffer() }
